@@ -616,17 +616,20 @@ func cellScopes(thorough bool) []Scope {
 // inside the moat's outline); and a second hole inside that island.  The second hole lies inside two
 // outer rings (the shell and the island) and must end up in the island, whatever the areas of the two
 // candidates (frame thinner or thicker than the island), the order of the holes and the start vertices.
+// Without the second hole the family still asks that the moat ends up as a hole of the shell and the
+// island as a polygon of its own, for every start vertex of the moat ring (on the island side, in the
+// opening, on the frame side).
 // Quarter pixels; the figure is 20 px wide and is turned in all four directions.
 func nestedFamily(thorough bool) [][][]ref.P {
 	const L = int64(80)
 	frames := []int64{6, 12}
 	opens := []int64{1, 2}
-	moatRots := []int{0, 3, 6, 9}
+	moatRots := allRot(12)
+	widths := []int64{8, 3} // moat width 2 px (the opening collapses to a line) or 0.75 px (it can collapse into one pixel)
 	if thorough {
 		frames = []int64{4, 6, 9, 12, 16}
-		moatRots = allRot(12)
+		widths = []int64{8, 5, 4, 3, 2}
 	}
-	const w = int64(8)      // moat width: 2 px
 	const inset = int64(12) // hole 2 is 3 px inside the island
 	var out [][][]ref.P
 	turn := func(r []ref.P) []ref.P {
@@ -650,7 +653,17 @@ func nestedFamily(thorough bool) [][][]ref.P {
 		}
 		return o
 	}
-	for _, f := range frames {
+	for _, fw := range frames {
+		for _, w := range widths {
+			out = append(out, nestedOne(L, fw, w, inset, opens, moatRots, turn, shift, rev)...)
+		}
+	}
+	return out
+}
+
+func nestedOne(L, f, w, inset int64, opens []int64, moatRots []int, turn, shift, rev func([]ref.P) []ref.P) [][][]ref.P {
+	var out [][][]ref.P
+	{
 		a, b := f, L-f
 		c, d := f+w, L-f-w
 		for _, o := range opens {
@@ -666,6 +679,10 @@ func nestedFamily(thorough bool) [][][]ref.P {
 								continue
 							}
 							out = append(out, [][]ref.P{s, m, h}, [][]ref.P{s, h, m})
+						}
+						// the moat alone: the island has no hole of its own
+						if s, m := shift(shell), shift(mr); ref.HoleOK(s, nil, m) {
+							out = append(out, [][]ref.P{s, m})
 						}
 					}
 					shell, moat, hole2 = turn(shell), turn(moat), turn(hole2)
